@@ -234,6 +234,19 @@ theorem goodT_capply {t : TState} (h : GoodT t) (o : COp) : GoodT (capply t o).1
         ⟨good_delMd hb k .any sfx, hd⟩ _ _
     · exact ⟨hb, hd⟩
 
+theorem goodT_copyStep {t : TState} (h : GoodT t) (w : Worker) (pick : Nat) : GoodT (copyStep t w pick).1 := by
+  obtain ⟨hm, hd⟩ := h
+  unfold copyStep
+  split
+  · exact ⟨hm, hd⟩
+  · split
+    · exact ⟨hm, hd⟩
+    · simp only
+      split
+      · rename_i db hdb
+        exact ⟨hm, good_setData' hd _ _ _ (hBlob_some hdb).1⟩
+      · exact ⟨hm, hd⟩
+
 theorem goodT_wstep {t : TState} (h : GoodT t) (w : Worker) (pick : Nat) : GoodT (wstep t w pick).1 := by
   obtain ⟨hm, hd⟩ := h
   unfold wstep
@@ -256,16 +269,8 @@ theorem goodT_wstep {t : TState} (h : GoodT t) (w : Worker) (pick : Nat) : GoodT
       simp only
       split <;> exact ⟨hm, hd'⟩
   · exact ⟨hm, hd⟩
-  · -- fCopy
-    split
-    · exact ⟨hm, hd⟩
-    · split
-      · exact ⟨hm, hd⟩
-      · split
-        · rename_i db hdb
-          exact ⟨hm, good_setData' hd _ _ _ (hBlob_some hdb).1⟩
-        · exact ⟨hm, hd⟩
-  · split <;> exact ⟨hm, hd⟩
+  · exact goodT_copyStep ⟨hm, hd⟩ w pick
+  · exact goodT_copyStep ⟨hm, hd⟩ w pick
   · split
     · exact ⟨hm, hd⟩
     · exact ⟨hm, good_markComplete hd w.key⟩
